@@ -119,17 +119,21 @@ def lex_multichar_comments(
             )
 
     if ("/*", "*/") in comments:
+        # Inside of a comment, "/*" has no meaning, and the delimiters
+        # may not overlap: "/*/" is an open comment, not a complete one.
+        in_comment = preserve["state"] == Preserve.COMMENT
         if char == "*":
-            if prev_char == "/":
+            if prev_char == "/" and not in_comment:
                 return lexeme + "/*", dict(state=Preserve.COMMENT, end="*/")
             elif next_char == "/":
                 return lexeme + "*/", dict(state=Preserve.FALSE, end=None)
             else:
                 return lexeme + "*", preserve
         elif char == "/":
-            # If part of a comment ignore, and let the char == '*' handler
-            # above deal with it, otherwise add it to the lexeme.
-            if prev_char != "*" and next_char != "*":
+            # If part of a comment delimiter ignore, and let the
+            # char == '*' handler above deal with it, otherwise add it to
+            # the lexeme.
+            if in_comment or (prev_char != "*" and next_char != "*"):
                 return lexeme + "/", preserve
 
     return lexeme, preserve
